@@ -345,6 +345,11 @@ class Producer(object):
         We've determined the partition for each message group in the batch, or
         got errors for them.
         """
+        if self.stopping:
+            # stop() cancelled the partition lookups, which brought us here.
+            # Nothing may be sent anymore, and whatever the lookups yielded
+            # is moot: stop() cancels the callers' deferreds itself.
+            return
         # We use these dictionaries to be able to combine all the messages
         # destined to the same topic/partition into one request
         # the messages & deferreds, both by topic+partition
